@@ -202,6 +202,29 @@ class Check:
         return 1 if nviol else 0
 
 
+def tie_stage(chk):
+    """Source-derived guards (xlate/pyxlate.py): the decision expressions of /repo's current source are
+    translated to Gallina and each is proved equal to the expression the model uses at that place.  A site
+    that no longer translates or no longer ties, and on which this property rests, is a broken tie."""
+    sys.path.insert(0, os.path.join(VERIF, "xlate"))
+    try:
+        import pyxlate
+        report = pyxlate.cmd_gen(os.path.join(COQ, "Gen"), COQ)
+    except Exception as e:
+        chk.unproven("tie:translator", "the source translator failed to run", dict(error=repr(e)))
+        return
+    mine = [r for r in report if chk.pid in r.get("props", [])]
+    chk.extra["source_guards"] = dict(sites_total=len(report), sites_tied=sum(1 for r in report if r["status"] == "ok"),
+                                      sites_of_this_property=[dict(site=r["site"], function=r["function"], source=r["source"],
+                                                                   status=r["status"]) for r in mine])
+    for r in mine:
+        if r["status"] != "ok":
+            chk.unproven("tie:" + r["site"],
+                         "a decision expression of %s no longer ties to the model: %s" % (r["function"], r["status"]),
+                         dict(site=r["site"], file=r["file"], function=r["function"], source=r["source"], status=r["status"],
+                              tie_lemma="coq/Gen/GuardTie.v: tie_" + r["site"]))
+
+
 def proof_stage(chk):
     """Build everything and re-check the property's theorem file.  Returns
     (obligations, discharged, axioms).  On failure records an 'unproven' violation."""
@@ -213,6 +236,7 @@ def proof_stage(chk):
         chk.unproven("build", "the Coq development or the driver no longer builds",
                      dict(theorem_file="coq/Props/%s.v" % chk.pid, detail=msg))
         return 1, 0, []
+    tie_stage(chk)
     names, axioms, closed, pok, out = prop_theorems(chk.pid)
     if not pok:
         chk.unproven("theorems", "coq/Props/%s.v no longer checks" % chk.pid,
@@ -220,4 +244,14 @@ def proof_stage(chk):
         return len(names), 0, axioms
     chk.extra["theorems"] = names
     chk.extra["print_assumptions_closed"] = closed
+    if chk.tier == "thorough":
+        # independent re-check of the compiled theorem file and everything it depends on
+        rc, out, dt = sh("coqchk -silent -o -Q . Demes Demes.Props.%s" % chk.pid, 1800, COQ)
+        m = re.search(r"\* Axioms:(.*?)\n\s*\n\* Constants", out, flags=re.S)
+        ax = [l.strip() for l in (m.group(1) if m else "").splitlines() if l.strip()]
+        chk.extra["coqchk"] = dict(rc=rc, seconds=round(dt, 1), axioms=ax)
+        chk.log.append("coqchk rc=%d %.1fs axioms=%s" % (rc, dt, ax))
+        if rc != 0:
+            chk.unproven("coqchk", "coqchk does not accept coq/Props/%s.vo" % chk.pid, dict(detail=out[-2000:]))
+            return len(names), 0, axioms
     return len(names), len(names), axioms
